@@ -178,7 +178,7 @@ mutual
           (← jOpt dTerm (fld j "extract_from")) (← jOpt dTerm (fld j "filter")) (← fBool j "over")
           (← ts "partition") (← (← fArr j "over_order").mapM dOrdItem) (← jOpt dFrame (fld j "frame"))
           (← fBool j "no_parens") al)
-    | "param" => pure (.param (← fStr j "text"))
+    | "param" => pure (.param (← fStr j "text") (← fOptStr j "alias"))
     | "interval" => pure (.interval (← dInterval (fld j "iv")))
     | "json" => pure (.json (← dJVal (fld j "j")) al)
     | "pseudo" => pure (.pseudo (← fStr j "name"))
